@@ -509,7 +509,24 @@ def gen_triples(ctx):
                            2 * o - 1, 2 * o, 2 * o + 1, w + 5 * s, w + 5 * s + 1, 400}:
                     if ns >= 1:
                         boundary.append((ns, w, o))
-    triples += boundary
+    # long strides, few windows, signal ending a few samples past / before a window boundary: the true ratio
+    # (ns - nswin) / stride is within 1e-7 .. 1e-15 of an integer, where any tolerance, rounding "guard" or
+    # reduced-precision arithmetic in the window count shows (a handful of windows each: cheap)
+    wins = [2 ** k for k in range(16, 25)] + [2 ** 21 + 1, 2 ** 23 - 1, 1800000, 30000 * 300,
+                                              2 ** 30, 2 ** 40, 2 ** 50]
+    wins += [rng.randrange(2 ** 16, 2 ** 24 + 1) for _ in range(40 if ctx.thorough() else 4)]
+    long_stride = []
+    for w in wins:
+        for o in dict.fromkeys([0, 1, 1024, w // 2, w - 1]):
+            s = w - o
+            for k in range(0, 8):
+                for r in dict.fromkeys([-3, -2, -1, 0, 1, 2, 3, s - 1, s - 2]):
+                    ns = w + k * s + r
+                    if ns >= 1 and ns < 2 ** 52:
+                        long_stride.append((ns, w, o))
+                        if r == 1 and k in (0, 5) and o == 1024 and w <= 2 ** 24:
+                            boundary.append((ns, w, o))      # also through every argument representation
+    triples += boundary + long_stride
     nrand = 20000 if ctx.thorough() else 2000
     for _ in range(nrand):
         kind = rng.random()
@@ -815,7 +832,9 @@ def run(ctx):
     return common.finish(
         ctx, TRUSTED,
         rule="(1) (ns, nswin, overlap) triples: the box ns<=400 x nswin<=64 x every overlap (all of it in "
-             "thorough, a 1-in-61 stride plus boundary rows in quick) and random large triples; each is run "
+             "thorough, a 1-in-61 stride plus boundary rows in quick), random large triples, and a long-stride family "
+             "(nswin 2^16..2^24, 2^30, 2^40, 2^50 and random, overlap 0/1/1024/nswin/2/nswin-1, 1..8 windows, signal ending "
+             "-3..+3 samples around a window boundary); each is run "
              "through the real WindowGenerator (nwin, firstlast, firstlast_valid, slice, tscale, "
              "firstlast_splicing streamed and materialised) alone and as zip(...) of two views of one object / "
              "tscale() inside the loop, and through the Coq model; (2) random schedules of next()/tscale() over "
